@@ -4,9 +4,12 @@
     This file only states the property theorems; proofs are in Proofs/C06_Npy.v.
     [wf bs ops]: every batch written has [bs] rows of the store's row shape, [Close] is not
     used in the middle of a history ([Reopen] = close + open), and no [Open k] (a store exposing a
-    prefix of the file: theorems (5), (6) with [wfp]).                                          *)
-From Coq Require Import List NArith Arith Bool.
-From Elfi Require Import Store.Npy Proofs.C06_Npy.
+    prefix of the file: theorems (5), (6) with [wfp]).
+    Memory layouts (theorems (7)): the arrays handed to [store[i] = a] are strided windows into a
+    buffer ([Store/Layout.v]); histories of [iop] are lowered to histories of [hop] by replacing
+    every array by its logical content [nd_rows a], so theorems (1)-(6) apply to them as they are. *)
+From Coq Require Import List NArith ZArith Arith Bool.
+From Elfi Require Import Store.Layout Proofs.C05_Layout Store.Npy Proofs.C06_Npy.
 Import ListNotations.
 
 (** (1) Refinement: after any history, whatever the buffering, [len(store)] and every [store[i]]
@@ -251,3 +254,110 @@ Example C06_example_prefix_history :
    (view 2 m f, loads (f_disk f)))
   = ((2, Some [[[9];[10]]; [[13];[14]]]%N), Some [[9];[10];[13];[14]]%N).
 Proof. vm_compute. reflexivity. Qed.
+
+(** (7) Memory layouts.  The batch handed to the store is an n-dimensional array in any memory
+    layout: shape, one stride per axis, an offset, a buffer (C order, Fortran order, transposed and
+    permuted views, every second element, negative strides, windows, broadcast rows ...).
+
+    (7a) What [NpyArray.append] writes: one data write behind the rows already in the array, whose
+    content is [array.tobytes('C')] -- the element at every valid multi-index lands at the row-major
+    position of that index (C05_tobytes_C_is_logical_order reused), whatever strides, offset and
+    buffer are. *)
+Theorem C06_append_writes_logical_order : forall m a n rs, nd_shape a = n :: rs -> m_closed m = false ->
+  (exists l0 r, arr_append m true (nd_rows a) = (l0 ++ [LSeek; LWriteData r (nd_rows a)], upd (if m_init m then m else
+       {| m_init := true; m_closed := false; m_rows := 0; m_pend := None; m_mmap := m_mmap m; m_nb := m_nb m |}) (r + n) (Some (r + n)) false, false)) /\
+  concat (nd_rows a) = map code (tobytes_C a) /\
+  forall idx, valid idx (nd_shape a) ->
+    nth_error (concat (nd_rows a)) (lin (nd_shape a) idx) = Some (code (elem a idx)).
+Proof. exact append_writes_logical_order. Qed.
+Print Assumptions C06_append_writes_logical_order.
+
+(** (7b) Refinement for histories whose batches come in arbitrary layouts ([iwf]: every array has
+    [bs] rows, the other operations as in [wf]): after any such history, whatever the buffering,
+    [len(store)] and every [store[i]] are those of the in-memory list of the arrays' logical
+    contents.  (Crash safety, flush/close, reopen: instantiate (2)-(4) with [map lower ins], using
+    [C06_iwf_wf].) *)
+Theorem C06_layout_refinement : forall bs o ins, 0 < bs -> iwf bs ins ->
+  forall m f i, start current bs o (map lower ins) = (m, f, i) ->
+    view bs m f = (length (spec (map lower ins)), Some (spec (map lower ins))).
+Proof. exact layout_refinement. Qed.
+Print Assumptions C06_layout_refinement.
+
+Theorem C06_iwf_wf : forall bs ins, iwf bs ins -> wf bs (map lower ins).
+Proof. exact iwf_wf. Qed.
+Print Assumptions C06_iwf_wf.
+
+(** ... and cell by cell: element [(r, idx)] of the array is cell [lin rs idx] of row [r] of the
+    content the specification (hence, by (7b), the store) holds for it. *)
+Theorem C06_logical_cell : forall a n rs r idx, nd_shape a = n :: rs -> r < n -> valid idx rs ->
+  exists row, nth_error (nd_rows a) r = Some row /\ nth_error row (lin rs idx) = Some (code (elem a (r :: idx))).
+Proof. exact nd_rows_cell. Qed.
+Print Assumptions C06_logical_cell.
+
+(** (7c) The layout is irrelevant: two histories that differ only in how each array is laid out
+    (same shape, same element at every valid index) are the same history for the model -- the same
+    low-level operations with the same data, the same reports, the same file at every kill point. *)
+Theorem C06_layout_irrelevant : forall xs ys, Forall2 same_iop xs ys -> map lower xs = map lower ys.
+Proof. exact layout_irrelevant. Qed.
+Print Assumptions C06_layout_irrelevant.
+
+(** (7d) Soundness of the decidable report clause with respect to layouts: when [ok_reports] accepts
+    the observation made right after [store[i] = a], the batch the implementation reports at index
+    [i] has, at every valid index, the element the array handed in has there. *)
+Theorem C06_ok_reports_logical : forall l i g a ops ob obs n rs,
+  ok_reports l (map lower (IArr i g a :: ops)) (ob :: obs) = true -> o_err ob = false -> i <= length l ->
+  nd_shape a = n :: rs ->
+  exists bt b, o_batches ob = Some bt /\ nth_error bt i = Some b /\
+    forall r idx, r < n -> valid idx rs ->
+      exists row, nth_error b r = Some row /\ nth_error row (lin rs idx) = Some (code (elem a (r :: idx))).
+Proof. exact ok_reports_logical. Qed.
+Print Assumptions C06_ok_reports_logical.
+
+(** Non-vacuity and a regression guard.  One 2 x 3 batch [[1 3 5] [2 4 6]] in three layouts:
+    Fortran order (strides 1, 2), C order (strides 3, 1), both axes reversed (strides -3, -1 from
+    offset 5); and a second batch as every second row of a 4 x 3 buffer. *)
+Definition ex_F := {| nd_shape := [2; 3]; nd_strides := [1; 2]%Z; nd_offset := 0%Z; nd_buf := [1; 2; 3; 4; 5; 6]%Z |}.
+Definition ex_C := {| nd_shape := [2; 3]; nd_strides := [3; 1]%Z; nd_offset := 0%Z; nd_buf := [1; 3; 5; 2; 4; 6]%Z |}.
+Definition ex_neg := {| nd_shape := [2; 3]; nd_strides := [-3; -1]%Z; nd_offset := 5%Z; nd_buf := [6; 4; 2; 5; 3; 1]%Z |}.
+Definition ex_step := {| nd_shape := [2; 3]; nd_strides := [6; 1]%Z; nd_offset := 0%Z;
+                         nd_buf := [7; 8; 9; 0; 0; 0; 10; 11; 12; 0; 0; 0]%Z |}.
+
+Example C06_example_layouts :
+  nd_rows ex_F = [[1; 3; 5]; [2; 4; 6]]%N /\ nd_rows ex_C = nd_rows ex_F /\ nd_rows ex_neg = nd_rows ex_F /\
+  nd_inb ex_F = true /\ nd_inb ex_neg = true /\ nd_inb ex_step = true /\
+  iwf 2 [IArr 0 true ex_F; IOp Flush; IArr 1 true ex_step; IOp (Read 0); IArr 0 true ex_neg; IOp Reopen] /\
+  Forall2 same_iop [IArr 0 true ex_F; IOp Flush; IArr 1 true ex_neg] [IArr 0 true ex_C; IOp Flush; IArr 1 true ex_F].
+Proof.
+  assert (S1 : same_content ex_F ex_C).
+  { split; [reflexivity|]. intros idx H. inversion H as [|i n idx1 sh Hi H1]; subst. inversion H1 as [|j n2 idx2 sh2 Hj H2]; subst.
+    inversion H2; subst. destruct i as [|[|i]]; [| |exfalso; apply (Nat.lt_irrefl 2); eapply Nat.le_lt_trans; [|exact Hi]; repeat apply le_n_S; apply Nat.le_0_l];
+      (destruct j as [|[|[|j]]]; [reflexivity|reflexivity|reflexivity|exfalso; apply (Nat.lt_irrefl 3); eapply Nat.le_lt_trans; [|exact Hj]; repeat apply le_n_S; apply Nat.le_0_l]). }
+  assert (S2 : same_content ex_neg ex_F).
+  { split; [reflexivity|]. intros idx H. inversion H as [|i n idx1 sh Hi H1]; subst. inversion H1 as [|j n2 idx2 sh2 Hj H2]; subst.
+    inversion H2; subst. destruct i as [|[|i]]; [| |exfalso; apply (Nat.lt_irrefl 2); eapply Nat.le_lt_trans; [|exact Hi]; repeat apply le_n_S; apply Nat.le_0_l];
+      (destruct j as [|[|[|j]]]; [reflexivity|reflexivity|reflexivity|exfalso; apply (Nat.lt_irrefl 3); eapply Nat.le_lt_trans; [|exact Hj]; repeat apply le_n_S; apply Nat.le_0_l]). }
+  repeat split; try (vm_compute; reflexivity).
+  - repeat constructor; try (eexists; reflexivity).
+  - constructor; [apply same_arr; exact S1|]. constructor; [apply same_op|]. constructor; [apply same_arr; exact S2 | constructor].
+Qed.
+
+(** the store after a history with those batches: reports and file are the logical contents *)
+Example C06_example_layout_history :
+  (let '(m, f, _) := start current 2 (fun _ => 0)
+       (map lower [IArr 0 true ex_F; IOp Flush; IArr 1 true ex_step; IOp (Read 0); IArr 0 true ex_neg; IArr 1 true ex_F; IOp Reopen]) in
+   (view 2 m f, loads (f_disk f)))
+  = ((2, Some [[[1; 3; 5]; [2; 4; 6]]; [[1; 3; 5]; [2; 4; 6]]]%N), Some [[1; 3; 5]; [2; 4; 6]; [1; 3; 5]; [2; 4; 6]]%N).
+Proof. vm_compute. reflexivity. Qed.
+
+(** why the serialisation must be [tobytes('C')] and not the memory order of the array
+    ([tobytes('A')] emits a Fortran-contiguous array column by column): for the Fortran-ordered batch
+    the column-major byte string puts a[0,1] = 3 where the row-major reader of the file looks for
+    a[0,1]'s neighbour -- position [lin shape idx] does not hold [a[idx]], in contrast to (7a). *)
+Example C06_memory_order_refuted :
+  map code (tobytes_F ex_F) = [1; 2; 3; 4; 5; 6]%N /\ concat (nd_rows ex_F) = [1; 3; 5; 2; 4; 6]%N /\
+  exists idx, valid idx (nd_shape ex_F) /\
+    nth_error (map code (tobytes_F ex_F)) (lin (nd_shape ex_F) idx) <> Some (code (elem ex_F idx)).
+Proof.
+  split; [vm_compute; reflexivity|]. split; [vm_compute; reflexivity|].
+  exists [0; 1]. split; [repeat constructor|]. vm_compute. discriminate.
+Qed.
